@@ -254,7 +254,7 @@ def instances_for(draw, s, n=3, fallback=None):
 # ---- deterministic, schema-directed probe sets (no randomness: a pure function of the schema) -----
 
 FIXED_PROBES = [None, True, False, 0, 1, 1.0, -1, 2.5, "", "a", "ab", "abc", [], [1], [1, 1], [1, "a", None, 2],
-                {}, {"a": 1}, {"a": 1, "b": "x"}, {"zz": None}]
+                {}, {"a": 1}, {"a": 1, "b": "x"}, {"zz": None}, [0, False], [True, 1]]
 
 
 def _num_near(b):
@@ -370,6 +370,8 @@ def probes(s, limit=40, depth=0):
         out.append([1, 1.0])
         out.append([[1], [True]])
         out.append([{"a": 1}, {"a": 1}])
+        # equal for Python (==, hash) but different JSON values, in both orders
+        out += [[0, False], [False, 0], [1, True], [True, 1], [1.0, 1, True], ["a", "a", "b"]]
     for kw in ("allOf", "anyOf", "oneOf", "extends", "not", "if", "then", "else", "type", "disallow"):
         v = s.get(kw)
         for e in (v if isinstance(v, list) else [v]):
